@@ -59,6 +59,7 @@ func (p *Program) genFunc(fc *FuncContract) (g *Gen, fr *Frame, ur *UnitResult) 
 	if fn.Pkg != nil {
 		g.curPkg = fn.Pkg.Pkg
 	}
+	p.CurPkgPath, _, _ = funcKeyNames(fn)
 	fr = newFrame(g, fn, fc, "", 0)
 	fr.top = true
 	fr.unitName = ur.Name
